@@ -231,7 +231,7 @@ Record identity := mkId { id_pk : key; id_names : list name }.
 (* IDChunk.WriteTo / Name.WriteTo failure conditions *)
 Definition chunk_len (ns : list name) : N := 2 + fold_right (fun n a => len (snd n) + 3 + a) 0 ns.
 Definition serializable (ns : list name) : bool :=
-  (chunk_len ns <=? 512) && forallb (fun n => len (snd n) <=? 253) ns.
+  (chunk_len ns <=? 512) && forallb (fun n => len (snd n) <=? 252) ns.
 (* 4 header + 8 + 8 + 32 key + 32 parent + chunk + 64 signature *)
 Definition cert_len (ns : list name) : N := 148 + chunk_len ns.
 
